@@ -11,6 +11,7 @@ import (
 	yaml "gopkg.in/yaml.v3"
 
 	"github.com/titpetric/vuego/internal/helpers"
+	ireflect "github.com/titpetric/vuego/internal/reflect"
 )
 
 // LoadOption is a functional option for configuring Load().
@@ -263,6 +264,15 @@ func (t *template) Fill(vars any) Template {
 	passedData := toMapData(vars)
 	for k, v := range passedData {
 		dataMap[k] = v
+	}
+	// (the fields of a struct are variables under their Go names as well - the stack finds them in
+	// the root data: like the tag names they override a config key of that spelling)
+	byEitherName := map[string]any{}
+	ireflect.PopulateStructFields(byEitherName, vars)
+	for k, v := range byEitherName {
+		if _, passed := passedData[k]; !passed {
+			dataMap[k] = v
+		}
 	}
 	// Merge loaded front-matter into data (front-matter takes precedence)
 	for k, v := range t.frontMatter {
